@@ -22,5 +22,15 @@ void caller_twice (void) {
 	nsync_run_once (&onces[0], &init_fn); vf_assert (done == 1 && runs == 1);
 	nsync_run_once (&onces[0], &init_fn); vf_assert (done == 1 && runs == 1);
 }
+/* passive runner of onces[0]: set-up puts the word into the state "somebody won the CAS, released the internal lock and is inside f" (1);
+   the same thread that completes onces[64] (shared internal lock/cv slot: its broadcast wakes waiters of onces[0] too) later finishes f and
+   publishes 2 WITHOUT a broadcast (a real runner would also broadcast; the loser's 10..50 ms timed wait covers a missed one) */
+void setup_running (void) { runs = 1; __atomic_store_n ((uint32_t *) &onces[0], 1, __ATOMIC_RELEASE); }
+void other_then_finish (void) {
+	nsync_run_once (&onces[64], &init_b);
+	vf_yield ();
+	done = 1;
+	__atomic_store_n ((uint32_t *) &onces[0], 2, __ATOMIC_RELEASE);
+}
 void final_check (void) { vf_assert (runs == 1 && done == 1); }
 void final_check_b (void) { vf_assert (runs == 1 && done == 1 && runs_b == 1 && done_b == 1); }
